@@ -93,6 +93,20 @@ def cases(rng, tier):
         yield Case("r%d" % i, ["in 1 %s" % hx(bytes(e.b)), "session 1 *"], oracle=oracle_session,
                    meta={"dist": {"mutation": "rle-structure", "runs_vs_values": "more" if nr > nv else "fewer" if nr < nv else "equal",
                                   "rows_vs_runs": "equal" if rowcount == total else "differ"}})
+    # column slices whose property list names a property twice (the API refuses that, a stream can say it)
+    for i in range({"quick": 40, "thorough": 800, "search": 30}[tier]):
+        t = G.rand_table(rng, ncols=rng.choice([1, 2, 3]), nslices=rng.choice([1, 2]), maxrows=6)
+        for sl in t["slices"]:
+            col = rng.choice(sl)
+            rows = len(col["vals"])
+            pty = rng.choice([G.BOOL, 2, G.STRING])
+            nm = rng.choice([b"IsInvalid", b"ErrorCode", b"p", b""])
+            col["props"] = [p for p in col["props"] if p[0] != nm]
+            for _ in range(rng.choice([2, 2, 3])):
+                col["props"].insert(rng.randint(0, len(col["props"])), (nm, pty, rand_array(rng, pty, rows), rng.choice([G.PLAIN, G.RLE, G.DFLT])))
+        e = G.encode_table(t)
+        mode = rng.choice(["*", "*", "skip", "".join(rng.choice("01") for _ in t["cols"])])
+        yield Case("d%d" % i, ["in 1 %s" % hx(bytes(e.b)), "session 1 %s" % mode], oracle=oracle_session, meta={"dist": {"mutation": "duplicate-property-name"}})
     # table-level metadata entries without a value (has-value flag 0), alone and next to ordinary ones
     for i in range({"quick": 60, "thorough": 1000, "search": 40}[tier]):
         t = G.rand_table(rng, maxrows=5)
